@@ -34,6 +34,13 @@ class EqE(Exception):
         return 11
 
 
+class FalsyE(E):
+    """A scripted failure (inside the E family) whose instances are falsy."""
+
+    def __len__(self):
+        return 0
+
+
 class KE(KeyError):
     def __init__(self, tag="KE"):
         KeyError.__init__(self, tag)
